@@ -508,14 +508,15 @@ PROPS["C37"] = {
              "registered once every handle is gone (always reached at the end); then the bus changes name owners and routes 0..6 signals "
              "according to the REGISTERED rules, and every live handle must receive exactly the signals it is entitled to; "
              "class real-daemon (not under Miri): 420 (12000 thorough) histories of 3..9 rounds on a PRIVATE dbus-daemon 1.14 (message streams over 4 rules, clones, "
-             "proxies to a unique / an owned / an unowned well-known name each with 1 signal stream or 2 created concurrently, sync Drop and async_drop), "
+             "proxies to a unique / an owned / an unowned well-known name each with 1 signal stream or 2 created concurrently, sync Drop and async_drop, and in a quarter of the rounds "
+             "a burst of 2-4 OS threads creating and dropping streams over the same two rules in parallel), "
              "ground truth = the daemon's own Debug.Stats.GetAllMatchRules for the connection read over an observer connection: it must converge (polled, 45 s "
              "allowance) to the connection's subscription table with no rule twice, live stream rules present with count == independently created live streams, "
              "rules of dropped streams gone, nothing left once every handle is gone; distinct = distinct (ops, schedule)"),
     "gates": {"quick": {"evaluations": 2400, "distinct": 2000, "quiescent_points_checked": 12000, "add_match_calls": 8000, "remove_match_calls": 8000,
                         "live_handle_rounds_checked": 25000, "signals_expected_at_handles": 10000, "class:handle-signal-stream": 2000, "class:point-with-no-handles": 2500,
                         "class:real-daemon": 400, "real_quiescent_points_checked": 2000, "real_signal_streams_created": 1500, "real_streams_created": 1000,
-                        "class:real-point-with-no-handles": 400},
+                        "class:real-point-with-no-handles": 400, "real_parallel_bursts": 300},
               "thorough": {"evaluations": 100000, "distinct": 80000}},
     "assumptions": ["the scripted bus compares rules as parsed values (reference parser) and resolves well-known sender names with its owner table, as dbus-daemon does",
                     "creations and drops of a round run concurrently; signals are sent at quiescent points (delivery racing with subscription changes is C20's subject)"],
